@@ -102,6 +102,11 @@ def main(c):
         fu = []
         for i in range(nproc):
             fu.append((['firstuse', c.seed * 10 + i, 2 + i % 7, pick[i % len(pick)]], dict(tsan_env, CQV_SHIM_SEED=str(i)) if i % 2 == 0 else dict(LS, __exe=asan)))
+        # (5) reader pool: one thread opens the handles, other threads use one each concurrently; two handles interleaved on one thread
+        npool = 24 if thorough else 8
+        for i in range(npool):
+            lf = os.path.join(base, 'pool%d' % i); sub = [pick[(i * 5 + j * 3) % len(pick)] for j in range(6)]; open(lf, 'w').write('\n'.join(sub) + '\n')
+            fu.append((['pool', c.seed * 10 + 500 + i, 2 + i % 7, lf], [dict(tsan_env, CQV_SHIM_SEED=str(i)), dict(LS, __exe=asan), {'CQV_IO_DELAY_PERMILLE': '150', '__exe': plain}][i % 3]))
         for tmp, exe in vlib.pmap(one, fu, workers=vlib.NCPU):
             c.evaluations += tmp.evaluations; c._distinct_extra = getattr(c, '_distinct_extra', 0) + getattr(tmp, '_distinct_extra', 0)
             for k2, v in tmp.observed.items():
@@ -128,9 +133,9 @@ def main(c):
     c.rule = ('(1) TSan build linked with drivers/gomp_shim.c (pthread implementation of the five libgomp entry points carquet uses; iterations handed out in seeded random order with seeded yields): batch reader with 2,3,4,8,16 threads '
               'in fread/mmap/buffer mode compared line by line with the 1-thread transcript, all TSan reports with carquet frames on both stacks are violations; (2) -O2 build with the real libgomp and --wrap of fseek/fread: seeded '
               'delays between seek and read, event log checked offline (no foreign operation on a FILE* between a thread\'s fseek and its next fread); (3) ASan build with libgomp; (4) fresh processes in which 2..8 threads open '
-              'independent readers behind a barrier as the first carquet calls of the process (TSan and ASan builds alternate), each compared with the solo transcript. distinct = configurations + thread-id sequences of the I/O log')
+              'independent readers behind a barrier as the first carquet calls of the process (TSan and ASan builds alternate), each compared with the solo transcript; (5) reader pools: one thread opens 2..8 handles (same file or different files, mostly fread mode), as many other threads use one each at the same time, and two handles are stepped alternately on one thread - every handle must give its solo transcript. distinct = configurations + thread-id sequences of the I/O log')
     c.assumptions = ['schedules are sampled, not enumerated', 'TSan only sees executed accesses; libc-internal stdio locking is not modelled (reports need carquet frames on both stacks)']
-    for k in ('tsan_parallel_runs', 'libgomp_parallel_runs', 'libgomp_io_seek_read_windows', 'libgomp_io_logs_with_several_threads', 'firstuse_concurrent_first_use_readers', 'first_use_processes', 'tsan_parallel_runs_with_decompression'):
+    for k in ('tsan_parallel_runs', 'libgomp_parallel_runs', 'libgomp_io_seek_read_windows', 'libgomp_io_logs_with_several_threads', 'firstuse_concurrent_first_use_readers', 'firstuse_pool_handles_used_concurrently', 'firstuse_interleaved_handle_pairs_on_one_thread', 'first_use_processes', 'tsan_parallel_runs_with_decompression'):
         c.require(k)
 
 
